@@ -24,7 +24,7 @@ const (
 	RTyped
 	RRec
 	RTail
-	RRedef // self tail call of a function that REPLACES, in a later evaluation, a function of the same name and arity whose formals have the opposite laziness
+	RRedef     // self tail call of a function that REPLACES, in a later evaluation, a function of the same name and arity whose formals have the opposite laziness
 	RTypedTail // self tail call of a typed func declaration (known to the generator while its body is compiled)
 	nRoutes
 )
@@ -132,7 +132,7 @@ var valVariants = []valVariant{
 // caller's caller (9) exist.  Every program runs the caller from (outer 8 9 10).
 type GridCase struct {
 	Bare    int    // position of the bare-variable argument, -1 = none
-	BareSym string // "w", "k", "k2" or "a" (the caller's let-bound local, 100; the callee binds its own a = 5 around the forces)
+	BareSym string // "w", "k", "k2" "a" (the caller's let-bound local, 100; the callee binds its own a = 5 around the forces) or "cnt" (the global counter the traced arguments increment: its value tells WHEN the variable was read)
 	// PassOn: the formals are handed on, as they are, to a further call before the body sees them
 	// (lazy ones as #p: the call mechanism wraps the SYMBOL #p again, it does not pass the thunk
 	// through).  Recursion routes: the inner call (f (- n 1) #p0 p1 ..), i.e. two further
@@ -534,7 +534,11 @@ func (gc *GridCase) Build() {
 
 	// ---- oracle
 	mk := func(i int) string { return fmt.Sprintf("I%d", 110+i) } // marker (traced effect) of outer argument i
-	val := func(i int) string {                                   // value of outer argument i
+	var cntAt func(i int) int
+	val := func(i int) string { // value of outer argument i
+		if bareAt(i) && gc.BareSym == "cnt" {
+			return fmt.Sprintf("I%d", cntAt(i))
+		}
 		if bareAt(i) {
 			return bareVal
 		}
@@ -558,6 +562,27 @@ func (gc *GridCase) Build() {
 	}
 	recFresh := rec && !gc.PassOn // the inner calls get fresh argument expressions: the outer lazy ones are dropped unforced
 	isLazyPos := func(i int) bool { return i < k && sh.Lazy[i] && route != RApply && route != RMap }
+	// the bare variable cnt (the global every traced argument increments): its value is the number
+	// of argument evaluations that happened BEFORE it is read -- for a strict position the traced
+	// arguments to its left, for a lazy position (read when forced, in the store at force time) all
+	// strict ones plus the lazy ones forced before it
+	cntAt = func(i int) int {
+		c := 0
+		for j := 0; j < nargs; j++ {
+			if j == i {
+				continue
+			}
+			switch {
+			case !isLazyPos(j):
+				if isLazyPos(i) || j < i {
+					c++
+				}
+			case isLazyPos(i) && j < i && pat.forces():
+				c++
+			}
+		}
+		return c
+	}
 	var cons []string
 	errPos, hasErr := hasErrKind(gc.Kinds)
 	escape := pat == PEscClos || pat == PEscArr
@@ -813,7 +838,9 @@ func EachGrid(full bool, emit func(*GridCase)) {
 							if b := brot % (len(nargsHere) + 1); vi == 0 && brot%3 != 0 && b < len(nargsHere) {
 								gc.Bare = b
 								gc.BareSym = "w"
-								if brot%5 == 0 {
+								if brot%7 == 0 {
+									gc.BareSym = "cnt"
+								} else if brot%5 == 0 {
 									gc.BareSym = "a"
 								} else if ck != 0 && brot%2 == 0 {
 									gc.BareSym = "k"
